@@ -6,6 +6,7 @@ package main
 
 import (
 	"bytes"
+	"context"
 	"encoding/json"
 	"fmt"
 	"io"
@@ -47,13 +48,25 @@ func (l *pipeListener) Accept() (net.Conn, error) {
 func (l *pipeListener) Close() error   { close(l.closed); return nil }
 func (l *pipeListener) Addr() net.Addr { return &net.TCPAddr{IP: net.IPv4(127, 0, 0, 1), Port: 80} }
 
-func (l *pipeListener) dial(string, string) (net.Conn, error) {
-	a, b := net.Pipe()
-	select {
-	case l.ch <- b:
-		return a, nil
-	case <-l.closed:
-		return nil, io.EOF
+// taggedConn: the server side of a connection the client dialled, tagged with the session
+// (= the meekConn) whose dialFn made it: requests are attributed to connections by the
+// transport connection they arrive on, not by their URL or session id.
+type taggedConn struct {
+	net.Conn
+	sess *session
+}
+
+type sessKey struct{}
+
+func (l *pipeListener) dialFor(s *session) func(string, string) (net.Conn, error) {
+	return func(string, string) (net.Conn, error) {
+		a, b := net.Pipe()
+		select {
+		case l.ch <- &taggedConn{Conn: b, sess: s}:
+			return a, nil
+		case <-l.closed:
+			return nil, io.EOF
+		}
 	}
 }
 
@@ -86,6 +99,9 @@ type script struct {
 	// the writer reuses ONE buffer for all its Writes, as io.Copy does — it scribbles over it as
 	// soon as Write has returned and refills it with the next payload
 	FreshBuf bool `json:"fresh_buf,omitempty"`
+	// Group: k >= 2 connections are Dialled from ONE ParseArgs result, the next one while the
+	// previous ones are still polling; each runs this script
+	Group int `json:"group,omitempty"`
 }
 
 type session struct {
@@ -148,10 +164,7 @@ type server struct {
 }
 
 func (sv *server) ServeHTTP(w http.ResponseWriter, r *http.Request) {
-	id, _ := strconv.Atoi(strings.TrimPrefix(r.URL.Path, "/s/"))
-	sv.mu.Lock()
-	s := sv.sessions[id]
-	sv.mu.Unlock()
+	s, _ := r.Context().Value(sessKey{}).(*session)
 	if s == nil {
 		http.Error(w, "no such session", 404)
 		return
@@ -247,16 +260,24 @@ func errClass(err error) string {
 }
 
 // runSession runs one scripted session against the real meek_lite client.
-func runSession(sv *server, cf base.ClientFactory, s *session) {
-	sc := s.sc
+func parseArgs(cf base.ClientFactory, id int) (any, error) {
 	args := &pt.Args{}
-	args.Add("url", fmt.Sprintf("http://meek.test/s/%d", s.id))
-	ca, err := cf.ParseArgs(args)
-	if err != nil {
-		s.viol("dial-failed", "ParseArgs: "+err.Error())
-		return
+	args.Add("url", fmt.Sprintf("http://meek.test/s/%d", id))
+	return cf.ParseArgs(args)
+}
+
+// runSession: ca == nil: the session parses its own arguments; otherwise it Dials from the
+// given (shared) ParseArgs result.
+func runSession(sv *server, cf base.ClientFactory, s *session, ca any) {
+	sc := s.sc
+	var err error
+	if ca == nil {
+		if ca, err = parseArgs(cf, s.id); err != nil {
+			s.viol("dial-failed", "ParseArgs: "+err.Error())
+			return
+		}
 	}
-	conn, err := cf.Dial("tcp", "", sv.ln.dial, ca)
+	conn, err := cf.Dial("tcp", "", sv.ln.dialFor(s), ca)
 	if err != nil {
 		s.viol("dial-failed", "Dial: "+err.Error())
 		return
@@ -546,6 +567,52 @@ func runSession(sv *server, cf base.ClientFactory, s *session) {
 	}
 }
 
+// runGroup: sc.Group connections from one ParseArgs result with overlapping lifetimes.
+func runGroup(r *vlib.Run, sv *server, cf base.ClientFactory, drivers chan *vlib.Driver, newSession func(int, script) *session, i int, sc script) {
+	ca, err := parseArgs(cf, i)
+	if err != nil {
+		r.Violate("dial-failed", "impl-oracle", "ParseArgs: "+err.Error(), sc)
+		return
+	}
+	var ss []*session
+	var wg sync.WaitGroup
+	for k := 0; k < sc.Group; k++ {
+		m := sc
+		m.Name = fmt.Sprintf("%s#%d", sc.Name, k+1)
+		s := newSession(i*100+k+100000, m)
+		s.sc.Group = sc.Group
+		if k > 0 {
+			prev := ss[k-1]
+			// the previous connection is up and polling (pacing only, bounded)
+			waitFor(5*time.Second, func() bool { prev.mu.Lock(); defer prev.mu.Unlock(); return prev.nreq >= 2 })
+		}
+		ss = append(ss, s)
+		wg.Add(1)
+		go func(s *session) {
+			defer wg.Done()
+			runSession(sv, cf, s, ca)
+		}(s)
+	}
+	wg.Wait()
+	owner := map[string]string{}
+	for k, s := range ss {
+		s.sc = sc // the replay case is the group script
+		s.sc.Name = s.sc.Name + fmt.Sprintf(" (connection %d of %d from one ParseArgs result)", k+1, sc.Group)
+		for id := range s.sids {
+			if o, dup := owner[id]; dup && o != s.sc.Name {
+				// property: every request of A connection carries the same identifier — two
+				// connections with one identifier are one session to the server
+				s.viol("session-id-shared-between-connections", fmt.Sprintf("session id %s is used by %s and by %s", id, o, s.sc.Name))
+			}
+			owner[id] = s.sc.Name
+		}
+		d := <-drivers
+		judge(r, d, s)
+		drivers <- d
+	}
+	r.Count("group", strconv.Itoa(sc.Group))
+}
+
 // judge runs the property oracle on the finished session and has the Lean driver validate
 // the trace.
 func judge(r *vlib.Run, d *vlib.Driver, s *session) {
@@ -749,6 +816,15 @@ func genScript(rng *vlib.Rng, i int) script {
 		sc.ServerLag = rng.Range(50, 3000)
 	}
 	sc.FreshBuf = rng.Intn(5) == 0
+	if rng.Intn(12) == 0 {
+		sc.Group = rng.Range(2, 3)
+		if sc.ServerLag == 0 {
+			sc.ServerLag = 300
+		}
+		for len(sc.Writes) < 15 {
+			sc.Writes = append(sc.Writes, vlib.Pick(rng, smallSizes))
+		}
+	}
 	if rng.Intn(3) == 0 && sc.Down > 1 {
 		// the reader lags: several non-empty responses (distinct sizes) are fetched before it reads
 		sc.Resp = [][]int{{100, 7, 3000}, {65536, 1, 20000}, {5, 60000, 9, 300}, {1000, 999, 998}}[rng.Intn(4)]
@@ -801,6 +877,16 @@ func closeEverywhere() []script {
 			Resp: []int{300, 20, 150, 7, 90, 33}, Down: 600, FailAt: -1, Close: "drained", Lag: [][2]int{{0, 2}, {3, 4}, {9, 6}}, NoFlush: true},
 		script{Name: "lag-carry-over-large", Writes: small, ReadSizes: []int{1000, 50000, 9}, Reads: -1,
 			Resp: []int{40000, 65536, 100, 30000}, Down: 135636, FailAt: -1, Close: "drained", Lag: [][2]int{{0, 2}, {1, 3}, {2, 4}}, NoFlush: true},
+	)
+	many := make([]int, 28)
+	for i := range many {
+		many[i] = 20 + i
+	}
+	out = append(out,
+		script{Name: "two-dials-one-parseargs", Writes: many, ReadSizes: []int{4096}, Reads: -1, Resp: []int{3}, Down: 90,
+			FailAt: -1, Close: "drained", ServerLag: 700, Group: 2},
+		script{Name: "three-dials-one-parseargs", Writes: many, ReadSizes: []int{100}, Reads: -1, Resp: []int{0, 5}, Down: 60,
+			FailAt: -1, Close: "drained", ServerLag: 500, Group: 3},
 	)
 	out = append(out,
 		script{Name: "reused-buffer-slow-server", Writes: []int{1, 1, 1, 1, 1, 1, 1, 1}, ReadSizes: []int{4096}, Reads: -1,
@@ -956,7 +1042,12 @@ func main() {
 		os.Exit(3)
 	}
 	sv := &server{ln: &pipeListener{ch: make(chan net.Conn), closed: make(chan struct{})}, sessions: map[int]*session{}}
-	go (&http.Server{Handler: sv}).Serve(sv.ln)
+	go (&http.Server{Handler: sv, ConnContext: func(ctx context.Context, c net.Conn) context.Context {
+		if tc, ok := c.(*taggedConn); ok {
+			return context.WithValue(ctx, sessKey{}, tc.sess)
+		}
+		return ctx
+	}}).Serve(sv.ln)
 
 	// A panic inside the client's own goroutines cannot be recovered by the harness: a few
 	// plain sessions are therefore run first in a child process; if that dies, the crash is
@@ -975,7 +1066,7 @@ func main() {
 			sv.mu.Lock()
 			sv.sessions[i] = s
 			sv.mu.Unlock()
-			runSession(sv, cf, s)
+			runSession(sv, cf, s, nil)
 		}
 		time.Sleep(50 * time.Millisecond)
 		fmt.Println("done")
@@ -1043,7 +1134,7 @@ func main() {
 		scripts = append(scripts, ce[len(ce)-1]) // the lingering session first: its wait overlaps the rest
 		scripts = append(scripts, ce[:len(ce)-1]...)
 		rng := vlib.NewRng(mixSeed(r.Seed))
-		n := r.Scale(120, 1200)
+		n := r.Scale(100, 1200)
 		for i := 0; i < n; i++ {
 			scripts = append(scripts, genScript(rng, i))
 		}
@@ -1067,29 +1158,35 @@ func main() {
 	}
 	sem := make(chan struct{}, par)
 	var wg sync.WaitGroup
-	for i, sc := range scripts {
-		s := &session{id: i, sc: sc, sids: map[string]bool{}, allOK: true, closedAt: -1, reqSeen: make(chan int, 64)}
+	newSession := func(id int, sc script) *session {
+		s := &session{id: id, sc: sc, sids: map[string]bool{}, allOK: true, closedAt: -1, reqSeen: make(chan int, 64)}
 		total := 0
 		for _, w := range sc.Writes {
 			total += w
 		}
-		s.up = pattern(byte(17+i), total)
-		s.down = pattern(byte(91+i*3), sc.Down)
-		sv.mu.Lock()
-		sv.sessions[i] = s
-		sv.mu.Unlock()
+		s.up = pattern(byte(17+id), total)
+		s.down = pattern(byte(91+id*3), sc.Down)
+		return s
+	}
+	for i, sc := range scripts {
 		sem <- struct{}{}
 		wg.Add(1)
+		if sc.Group >= 2 {
+			go func(i int, sc script) {
+				defer wg.Done()
+				defer func() { <-sem }()
+				runGroup(r, sv, cf, drivers, newSession, i, sc)
+			}(i, sc)
+			continue
+		}
+		s := newSession(i, sc)
 		go func(s *session) {
 			defer wg.Done()
 			defer func() { <-sem }()
-			runSession(sv, cf, s)
+			runSession(sv, cf, s, nil)
 			d := <-drivers
 			judge(r, d, s)
 			drivers <- d
-			sv.mu.Lock()
-			delete(sv.sessions, s.id)
-			sv.mu.Unlock()
 		}(s)
 	}
 	wg.Wait()
